@@ -44,7 +44,7 @@ func Run(r *report.Run) int {
 	for i, c := range cases {
 		planned++
 		s := c.Scenario
-		fp := fmt.Sprintf("%s:%s#%d:%s:%d", s.Shape, s.Label, s.Ord, s.Act, s.TornN)
+		fp := fmt.Sprintf("%s:%s#%d:%s:%d:%d", s.Shape, s.Label, s.Ord, s.Act, s.TornN, s.TornRel)
 		if c.VictimExit != 77 {
 			r.Inconclusive("crash-site-not-reached")
 			r.Eval(fp, false)
@@ -124,7 +124,7 @@ func Run(r *report.Run) int {
 	return r.Finish(rule, assumptions, 50)
 }
 
-const rule = "victim child processes run one seeded transaction (shapes S6 updates, S4 split, S7 removes; thorough all) on the mirror path and die (os.Exit) right before every decorator call site of their commit (every blob file, every registry block write incl. torn prefixes 62/2048 [thorough 1,62,2048,4092,4095], store-info, transaction-log and priority-log appends, L2 calls), plus after the last one; a cold recovery process with the clock advanced to +6 min, +75 min, +4 h 10 min and six further 6-minute steps runs read and write transactions per store through the public path; a cold observer dumps and walks the disk; oracle: the dump (minus the recovery writers' keys) equals model-before or model-after jointly over all stores incl. the earlier commit, stores stay readable, writable from +75 min on, every reachable node/value loads; fingerprint = (shape, site, ordinal, action, torn length); non-trivial = the victim died at the planned site (exit 77)"
+const rule = "victim child processes run one seeded transaction (shapes S6 updates, S4 split, S7 removes; thorough all) on the mirror path and die (os.Exit) right before every decorator call site of their commit (every blob file, every registry block write incl. torn writes (prefix ending 20 and 40 bytes into the changed handle record at every block write; block prefixes 62/2048 inside the flip [thorough 1,62,2048,4092,4095 everywhere]), store-info, transaction-log and priority-log appends, L2 calls), plus after the last one; a cold recovery process with the clock advanced to +6 min, +75 min, +4 h 10 min and six further 6-minute steps runs read and write transactions per store through the public path; a cold observer dumps and walks the disk; oracle: the dump (minus the recovery writers' keys) equals model-before or model-after jointly over all stores incl. the earlier commit, stores stay readable, writable from +75 min on, every reachable node/value loads; fingerprint = (shape, site, ordinal, action, torn length); non-trivial = the victim died at the planned site (exit 77)"
 
 var assumptions = []string{"crash model: the process dies between two completed calls visible at the seams, optionally with the last block write torn; nothing below the syscall layer", "standalone mode (locks die with the process)", "clock advanced through sop.Now, not waited out"}
 
